@@ -800,16 +800,32 @@ impl<'a> Gen<'a> {
     pub fn stmt(&mut self, depth: usize) {
         self.stmt_no += 1;
         self.name_k = 0;
-        if self.rng.chance(1, 6) {
-            let n = self.rng.range(1, 3);
-            self.out.push(P::Blank(n));
-        }
-        if self.comments && self.rng.chance(1, 8) {
-            let c = self.comment_text();
-            self.out.push(P::OwnLineComment(c));
-        }
         let nested_ok = self.depth < self.max_depth;
-        let r = self.rng.below(30);
+        let mut r = self.rng.below(30);
+        if r == 26 {
+            // statement starting with `(`: the guarding `;` is written right after the previous
+            // statement (a comment or blank line between a statement and its `;` is a known
+            // comment-merging defect, kept out of generated programs)
+            let n = self.out.len();
+            let prev_is_plain_stmt = n >= 2
+                && matches!(self.out[n - 1], P::StmtEnd)
+                && matches!(&self.out[n - 2], P::T(t) if t != ";");
+            if self.tame || !prev_is_plain_stmt {
+                r = 29;
+            } else {
+                self.out.insert(n - 1, P::T(";".to_string()));
+            }
+        }
+        if r != 26 {
+            if self.rng.chance(1, 6) {
+                let n = self.rng.range(1, 3);
+                self.out.push(P::Blank(n));
+            }
+            if self.comments && self.rng.chance(1, 8) {
+                let c = self.comment_text();
+                self.out.push(P::OwnLineComment(c));
+            }
+        }
         match r {
             0..=5 => {
                 // local
@@ -1009,9 +1025,8 @@ impl<'a> Gen<'a> {
                 self.t("=");
                 self.type_tokens(3);
             }
-            26 if !self.tame => {
-                // statement starting with `(` guarded by `;`
-                self.t(";");
+            26 => {
+                // statement starting with `(` (guarded by the `;` inserted above)
                 self.t("(");
                 let nm = self.name_ref();
                 self.t(&nm);
@@ -1028,8 +1043,9 @@ impl<'a> Gen<'a> {
             }
         }
         if self.comments && self.rng.chance(1, 10) {
-            let c = self.comment_text();
-            // a block comment may trail; a line comment too
+            // a block comment may trail; a line comment too. No trailing whitespace here: comments
+            // moved off removed tokens are copied verbatim (known finding), own-line ones carry it
+            let c = self.comment_text().trim_end().to_string();
             self.out.push(P::TrailingComment(c));
         }
         self.out.push(P::StmtEnd);
@@ -1049,6 +1065,12 @@ pub fn needs_sep(a: &str, b: &str) -> bool {
     let ca = a.chars().last().unwrap_or(' ');
     let cb = b.chars().next().unwrap_or(' ');
     if is_word(ca) && is_word(cb) {
+        return true;
+    }
+    // a numeral swallows a following word or dot (`54.then`, `1..2` are malformed numbers)
+    let a_is_number = a.chars().next().map(|c| c.is_ascii_digit()).unwrap_or(false)
+        || (a.starts_with('.') && a.chars().nth(1).map(|c| c.is_ascii_digit()).unwrap_or(false));
+    if a_is_number && (is_word(cb) || cb == '.') {
         return true;
     }
     // number followed by `.`/`..`, `.` followed by digit or `.`
@@ -1150,7 +1172,14 @@ pub fn render(rng: &mut Rng, pieces: &[P], st: &Style) -> String {
                 must_newline = false;
                 prev_tok = None;
             }
-            P::TrailingComment(c) => {
+            P::TrailingComment(c0) => {
+                let c_owned;
+                let c: &String = if st.crlf != 0 && !c0.starts_with("--[") {
+                    c_owned = format!("--[[{} ]]", &c0[2..]);
+                    &c_owned
+                } else {
+                    c0
+                };
                 if at_line_start {
                     indent(rng, &mut out, level);
                 } else {
